@@ -627,6 +627,9 @@ struct TaskDef {
     var: usize,
     moved: Vec<usize>,
     body: Vec<AItem>,
+    /// drop the frame-wrapped future once it has been polled this many times (0 = never polled)
+    /// if it has not completed by then
+    drop_after: Option<u8>,
 }
 
 #[derive(Debug, Hash)]
@@ -977,7 +980,8 @@ impl<'r> Gen<'r> {
             tsc.set(*v, VS::Free);
         }
         let body = self.items(&mut tsc, depth + 1);
-        TaskDef { var, moved, body }
+        let drop_after = *self.r.pick(&[None, None, None, None, Some(0), Some(1), Some(2)]);
+        TaskDef { var, moved, body, drop_after }
     }
 
     fn items(&mut self, sc: &mut Scope, depth: usize) -> Vec<AItem> {
@@ -1129,12 +1133,15 @@ struct Cx {
     min_ops: u64,
     max_ops: u64,
     check_every: usize,
+    /// `Some(name)`: not a generated program but the fixed fragment of that name
+    fixed: Option<&'static str>,
     done: Mutex<Vec<Ts>>,
 }
 
 impl Cx {
     fn case(&self) -> Json {
-        json!({"seed": self.seed, "index": self.index, "min_ops": self.min_ops, "max_ops": self.max_ops, "check_every": self.check_every})
+        json!({"seed": self.seed, "index": self.index, "min_ops": self.min_ops, "max_ops": self.max_ops, "check_every": self.check_every,
+               "fixed_program": self.fixed})
     }
 }
 
@@ -1178,7 +1185,7 @@ fn check(cx: &Cx, site: &'static str) {
     });
     // `--check-every K` (Miri lanes only, where one read costs ~30 ms): look at every K-th
     // program point of each thread so that more programs fit into the lane
-    if cx.check_every > 1 && rot % cx.check_every != 0 && site != "thread-end" {
+    if cx.check_every > 1 && rot % cx.check_every != 0 && site != "thread-end" && site != "future-drop:inside-frame" {
         return;
     }
     for (i, inst) in cx.insts.iter().enumerate() {
@@ -1644,26 +1651,55 @@ impl Future for YieldNow {
     }
 }
 
-/// Sits directly inside a `FrameFuture`: the model's push / pop around every poll.
+/// Sits directly inside a `FrameFuture`: the model's push / pop around every poll, and around
+/// the drop of everything the future still holds (a `FrameFuture` drops its inner future with
+/// its frame entered, so whatever completes while a future is cancelled still sees the frame).
 struct Scoped<'c, F> {
     cx: &'c Cx,
     inst: usize,
     map: AMap,
     kind: FK,
     slot: Option<TpVal>,
-    fut: F,
+    /// `Some` until dropped; only ever dropped in place
+    fut: Option<F>,
+}
+
+impl<'c, F> Drop for Scoped<'c, F> {
+    fn drop(&mut self) {
+        // the probe at the top of the inner future: it must see this frame's view ...
+        let m = ModelScope::push(self.cx, self.inst, &self.map, self.kind, self.slot);
+        bump("future-drops-observed-from-inside");
+        check(self.cx, "future-drop:inside-frame");
+        // ... and so must everything nested in it (dropped in place: the future stays pinned)
+        self.fut = None;
+        check(self.cx, "future-drop:after-inner-dropped");
+        m.pop();
+    }
+}
+
+/// A value the futures hold across their suspension points; whenever it is dropped (completion,
+/// cancellation after 0, 1, 2.. polls, unwinding) it looks at the ambient state.
+struct DropProbe<'c> {
+    cx: &'c Cx,
+}
+
+impl Drop for DropProbe<'_> {
+    fn drop(&mut self) {
+        bump("probes-dropped-inside-futures");
+        check(self.cx, "future-drop:probe");
+    }
 }
 
 impl<'c, F: Future<Output = ()>> Future for Scoped<'c, F> {
     type Output = ();
 
     fn poll(self: Pin<&mut Self>, c: &mut Context<'_>) -> Poll<()> {
-        // SAFETY: `fut` is structurally pinned: it is never moved out of `self` and `Scoped`
-        // has no `Drop` impl or `Unpin` impl of its own.
+        // SAFETY: `fut` is structurally pinned: it is never moved out of `self` (the `Drop` impl
+        // drops it in place) and `Scoped` has no `Unpin` impl of its own.
         let this = unsafe { self.get_unchecked_mut() };
         let m = ModelScope::push(this.cx, this.inst, &this.map, this.kind, this.slot);
         check(this.cx, "poll-entered");
-        let fut = unsafe { Pin::new_unchecked(&mut this.fut) };
+        let fut = unsafe { Pin::new_unchecked(this.fut.as_mut().expect("polled before drop")) };
         let r = fut.poll(c);
         check(this.cx, if r.is_ready() { "poll-returning-ready" } else { "poll-returning-pending" });
         m.pop();
@@ -1675,7 +1711,9 @@ fn run_items<'a, 'e>(cx: &'a Cx, items: &'a [AItem], env: &'e mut Env<'a>) -> Pi
 where
     'a: 'e,
 {
+    let probe = DropProbe { cx };
     Box::pin(async move {
+        let _probe = probe;
         for item in items {
             match item {
                 AItem::Sync(ops) => exec_block(cx, ops, env, "inside-future"),
@@ -1691,7 +1729,7 @@ where
                     let FVar { frame, map, inst, kind, slot, .. } = fv;
                     bump("enter:in_future-nested");
                     each_frame!(frame, f => {
-                        f.in_future(Scoped { cx, inst, map, kind, slot, fut: run_items(cx, body, env) }).await
+                        f.in_future(Scoped { cx, inst, map, kind, slot, fut: Some(run_items(cx, body, env)) }).await
                     });
                     check(cx, "after-nested-future");
                 }
@@ -1700,7 +1738,13 @@ where
     })
 }
 
-fn build_task<'a>(cx: &'a Cx, def: &'a TaskDef, env: &mut Env<'a>) -> Option<Task<'a>> {
+struct Running<'a> {
+    fut: Task<'a>,
+    polls: u8,
+    drop_after: Option<u8>,
+}
+
+fn build_task<'a>(cx: &'a Cx, def: &'a TaskDef, env: &mut Env<'a>) -> Option<Running<'a>> {
     let fv = env.vars[def.var].take()?;
     let mut tenv = Env::new(cx.n_vars);
     for v in &def.moved {
@@ -1711,28 +1755,46 @@ fn build_task<'a>(cx: &'a Cx, def: &'a TaskDef, env: &mut Env<'a>) -> Option<Tas
     }
     let FVar { frame, map, inst, kind, slot, .. } = fv;
     let body = &def.body;
+    let probe = DropProbe { cx };
     let inner = Scoped {
         cx,
         inst,
         map,
         kind,
         slot,
-        fut: async move {
+        fut: Some(async move {
+            let _probe = probe;
             let mut tenv = tenv;
             run_items(cx, body, &mut tenv).await;
-        },
+        }),
     };
     bump("enter:in_future");
-    Some(each_frame!(frame, f => Box::pin(f.in_future(inner)) as Task<'a>))
+    let fut = each_frame!(frame, f => Box::pin(f.in_future(inner)) as Task<'a>);
+    Some(Running { fut, polls: 0, drop_after: def.drop_after })
 }
 
-fn run_executor<'a>(cx: &'a Cx, mut tasks: Vec<Task<'a>>, mut g: Rng, cancel_pct: u64, migrate_after: Option<u32>) {
+fn run_executor<'a>(cx: &'a Cx, mut tasks: Vec<Running<'a>>, mut g: Rng, cancel_pct: u64, migrate_after: Option<u32>) {
     let mut ctx = Context::from_waker(Waker::noop());
     let mut polls = 0u32;
     if tasks.len() >= 2 {
         bump("executor-runs-with-2+-futures");
     }
-    while !tasks.is_empty() {
+    loop {
+        // scripted cancellation: after exactly k = 0, 1, 2 polls
+        while let Some(i) = tasks.iter().position(|t| t.drop_after == Some(t.polls)) {
+            let t = tasks.swap_remove(i);
+            bump(match t.polls {
+                0 => "futures-dropped-after-0-polls",
+                1 => "futures-dropped-after-1-poll",
+                _ => "futures-dropped-after-2-polls",
+            });
+            let polls = t.polls;
+            drop(t);
+            check(cx, if polls == 0 { "after-unpolled-future-dropped" } else { "after-future-cancelled" });
+        }
+        if tasks.is_empty() {
+            break;
+        }
         if migrate_after.map(|k| polls >= k).unwrap_or(false) {
             // work stealing: the suspended futures continue on another thread
             let rest = std::mem::take(&mut tasks);
@@ -1750,7 +1812,8 @@ fn run_executor<'a>(cx: &'a Cx, mut tasks: Vec<Task<'a>>, mut g: Rng, cancel_pct
         }
         let i = g.usize(tasks.len());
         let depths = ts(|t| t.depths());
-        let res = catch(|| tasks[i].as_mut().poll(&mut ctx));
+        let res = catch(|| tasks[i].fut.as_mut().poll(&mut ctx));
+        tasks[i].polls = tasks[i].polls.saturating_add(1);
         polls += 1;
         bump("polls");
         match res {
@@ -1788,6 +1851,57 @@ fn run_executor<'a>(cx: &'a Cx, mut tasks: Vec<Task<'a>>, mut g: Rng, cancel_pct
 fn run_program(r: &mut Report, seed: u64, index: u64, (min_ops, max_ops): (u64, u64), check_every: usize, verbose: bool) {
     let mut g = Rng::stream(seed, &[3, 1, index]);
     let prog = generate(&mut g, min_ops, max_ops);
+    execute(r, prog, seed, index, (min_ops, max_ops), check_every, verbose, None);
+}
+
+/// A fixed fragment run by every process (so also by every Miri seed): frame-wrapped futures nested
+/// up to three deep over a plain and a traceparent instance and several wrappers, holding probes,
+/// dropped after 0, 1 and 2 polls - the last one while suspended two frames deep.
+fn fixed_cancel_program() -> Program {
+    let p = |k: &str, v: i64| (k.to_string(), Val::I(v));
+    let create = |var, inst, h, kind, props: OwnProps, ids| Op::Create { var, inst, h, kind, props, ids };
+    let ops = vec![
+        create(0, 0, H::DynPad, FK::Push, vec![p("k0", 1)], None),
+        create(1, 1, H::Val, FK::Push, vec![p("k1", 2)], Some((0x1111_2222_3333_4444_5555_6666_7777_8888, 0xaaaa_bbbb_cccc_dddd, false))),
+        create(2, 1, H::DynAssert, FK::Disabled, vec![p("k2", 3)], Some((0x9999, 0x1234_5678_9abc_def1, true))),
+        create(3, 0, H::Boxed, FK::Root, vec![p("k3", 4)], None),
+        create(4, 1, H::Opt, FK::Push, vec![p("k4", 5)], Some((0x4242, 0x4343, true))),
+        create(5, 0, H::Arcd, FK::Push, vec![], None),
+        create(6, 1, H::Slot, FK::Push, vec![p("k5", 6)], Some((0x5151, 0x5252, false))),
+        Op::Tasks {
+            tasks: vec![
+                TaskDef {
+                    var: 0,
+                    moved: vec![1, 2],
+                    body: vec![
+                        AItem::Yield,
+                        AItem::Nested { var: 1, body: vec![AItem::Yield, AItem::Nested { var: 2, body: vec![AItem::Yield, AItem::Yield] }, AItem::Yield] },
+                        AItem::Yield,
+                    ],
+                    drop_after: Some(2),
+                },
+                TaskDef { var: 3, moved: vec![4], body: vec![AItem::Nested { var: 4, body: vec![AItem::Yield] }, AItem::Yield], drop_after: Some(1) },
+                TaskDef { var: 5, moved: vec![6], body: vec![AItem::Nested { var: 6, body: vec![AItem::Yield] }], drop_after: Some(0) },
+            ],
+            order_seed: 7,
+            cancel_pct: 0,
+            migrate_after: None,
+        },
+        Op::Emit { inst: 1 },
+    ];
+    Program {
+        insts: vec![
+            InstDef { shared: false, slot_kind: 1, place: Place::Worker, tp: false },
+            InstDef { shared: false, slot_kind: 2, place: Place::OwnHelper, tp: true },
+        ],
+        fresh_thread: false,
+        n_vars: 7,
+        ops,
+    }
+}
+
+#[allow(clippy::too_many_arguments)]
+fn execute(r: &mut Report, prog: Program, seed: u64, index: u64, (min_ops, max_ops): (u64, u64), check_every: usize, verbose: bool, fixed: Option<&'static str>) {
     if verbose {
         eprintln!("{:?}", prog);
     }
@@ -1836,6 +1950,7 @@ fn run_program(r: &mut Report, seed: u64, index: u64, (min_ops, max_ops): (u64, 
             min_ops,
             max_ops,
             check_every,
+            fixed,
             done: Mutex::new(Vec::new()),
         };
         let res = catch(|| {
@@ -2012,9 +2127,14 @@ fn main() {
             case.get("min_ops").and_then(|v| v.as_u64()).unwrap_or(min_ops),
             case.get("max_ops").and_then(|v| v.as_u64()).unwrap_or(max_ops),
         );
+        let fixed = case.get("fixed_program").and_then(|v| v.as_str()).is_some();
         for k in 0..3 {
             // always replay with every program point checked; the program is printed once
-            run_program(&mut r, seed, index, mo, 1, k == 0);
+            if fixed {
+                execute(&mut r, fixed_cancel_program(), seed, index, mo, 1, k == 0, Some("cancel-nested-futures"));
+            } else {
+                run_program(&mut r, seed, index, mo, 1, k == 0);
+            }
             // the driver treats fewer than two distinct cases as "observed too little"
             r.nontrivial(&("replay-run", k));
         }
@@ -2023,6 +2143,8 @@ fn main() {
 
     let n = args.get_u64("programs", args.n(5_000, 300_000));
     let seed = args.seed;
+    execute(&mut r, fixed_cancel_program(), seed, u64::MAX, (min_ops, max_ops), check_every, false, Some("cancel-nested-futures"));
+    r.observe("fixed-fragment:cancel-nested-futures", 1);
     par_cases(&mut r, &args, n, |i, r| run_program(r, seed, i, (min_ops, max_ops), check_every, false));
 
     let code = r.finish();
